@@ -16,6 +16,8 @@ pub enum Case {
     W1TwinInfallible(W1Script),
     /// C07: the history with and without set_allocation_limit(Some(x)); set_allocation_limit(None) pairs
     W1TwinPulse(W1Script),
+    /// C07: the history on an arena without a limit and on one whose limit is usize::MAX
+    W1TwinNoLimit(W1Script),
     /// collections clients in one arena, mirrored by std collections
     W2(crate::w2_ops::W2Script),
     /// a callback-taking operation with an injected panic at a chosen callback invocation
@@ -362,7 +364,7 @@ pub fn run_case(case: &Case, ctx: &Ctx) -> CaseResult {
         }
     }
     match case {
-        Case::W2(s) => w2_result(crate::w2::exec_w2(s)),
+        Case::W2(s) => w2_result(crate::w2::exec_w2(s, ctx.focus)),
         Case::W4 { scripts, schedule } => run_w4(scripts, schedule, ctx),
         Case::W8 => run_w8(),
         Case::W5(s) => {
@@ -430,6 +432,22 @@ pub fn run_case(case: &Case, ctx: &Ctx) -> CaseResult {
                 requests: a.requests,
                 request_sizes: a.request_sizes,
             }
+        }
+        Case::W1TwinNoLimit(s) => {
+            let a = exec_w1(s, ExecOpts { skip_pulses: true, focus: ctx.focus, ..Default::default() }, ctx.k);
+            let mut viol = a.violations.clone();
+            let mut stats = a.stats.clone();
+            if viol.is_empty() {
+                let b = exec_w1(s, ExecOpts { skip_pulses: true, huge_limit: true, focus: ctx.focus, ..Default::default() }, ctx.k);
+                stats.hit("twin_pulse_pair");
+                if b.violations.is_empty() {
+                    compare_traces("C07", "no-limit-differs-from-unreachable-limit", &a, &b, &mut viol);
+                } else {
+                    viol.extend(b.violations.iter().cloned());
+                }
+                stats.merge(&b.stats);
+            }
+            CaseResult { violations: viol, side: a.side.clone(), stats, fp: a.fp, requests: a.requests, request_sizes: a.request_sizes }
         }
         Case::W1TwinPulse(s) => {
             let a = exec_w1(
